@@ -72,22 +72,18 @@ import (
 // knownDeviations: inputs for which the UNCHANGED tree violates the property (see the final report). A case whose
 // description starts with one of these prefixes is still executed; a violation is then listed under
 // "known_deviations_observed" instead of "failures". Every other input is checked normally.
-var vhKnownDeviations = []string{
-	// The manifest is not authenticated and nothing ties the list of file entries to what was produced: a manifest
-	// whose file entries were duplicated or removed, with node_count/edge_count/graph_count re-totalled so that it
-	// stays self-consistent, is accepted by Load. Observed on the unchanged tree for every codec:
-	//   - the edge fragment entry listed twice: Load succeeds and writes every relationship twice;
-	//   - the edge fragment entry removed: Load succeeds and writes no relationship;
-	//   - all file entries of a graph removed / the graph entry removed / all graphs removed: Load succeeds and
-	//     writes nothing (or only the other graph).
-	// (The same edits on node fragment entries are rejected: duplicate source IDs / dangling edge endpoints.)
-	"manifest edit: entry duplicated totals-consistent graphs[0].files[2]",
-	"manifest edit: entry duplicated totals-consistent graphs[1].files[2]",
-	"manifest edit: entry dropped totals-consistent graphs[0].files[2]",
-	"manifest edit: entry dropped totals-consistent graphs[1].files[2]",
-	"manifest edit: graphs emptied graph_count consistent",
-	"manifest edit: graph files emptied totals-consistent graphs[",
-	"manifest edit: graph entry dropped graph_count consistent graphs[",
+var vhKnownDeviations = vhKnownFromEnv()
+
+// vhKnownFromEnv: the deviation patterns come from /verif/known_findings.json through VERIF_KNOWN ("|"-separated
+// substrings of case descriptions); nothing is suppressed that the committed findings file does not list.
+func vhKnownFromEnv() []string {
+	var out []string
+	for _, p := range strings.Split(os.Getenv("VERIF_KNOWN"), "|") {
+		if p = strings.TrimSpace(p); p != "" {
+			out = append(out, p)
+		}
+	}
+	return out
 }
 
 func vhIsKnownDeviation(desc string) bool {
@@ -633,7 +629,7 @@ func vhBuildDump(dir, scratch string, codec CompressionCodec, graphs int) (*vhDu
 		}
 		nodesB := []FragmentNode{{ID: "3", Kinds: []string{"Computer"}, Properties: map[string]any{"name": name + "-c1"}}}
 		edges := []FragmentEdge{
-			{StartID: "1", EndID: "n-b", Kind: "MemberOf"},
+			{StartID: "1", EndID: "n-b", Kind: "MemberOf", Properties: map[string]any{"in": name}},
 			{StartID: "n-b", EndID: "3", Kind: "AdminTo", Properties: map[string]any{"w": 1}},
 		}
 		var files []FileManifest
@@ -782,7 +778,7 @@ func vhLoadCases(d *vhDump, bound int) []vhLoadCase {
 		cases = append(cases, vhLoadCase{desc: fmt.Sprintf("%sfile=%s replaced by valid fragment with same record count, other record order/content", tag, f.path), changes: one(f.path, f.alt)})
 		cases = append(cases, vhLoadCase{desc: fmt.Sprintf("%sfile=%s deleted", tag, f.path), changes: one(f.path, vhDeleted)})
 		for fj, other := range d.frags {
-			if fi != fj {
+			if fi != fj && !bytes.Equal(f.orig, other.orig) {
 				cases = append(cases, vhLoadCase{desc: fmt.Sprintf("%sfile=%s replaced by the bytes of %s", tag, f.path, other.path), changes: one(f.path, other.orig)})
 			}
 		}
@@ -790,6 +786,9 @@ func vhLoadCases(d *vhDump, bound int) []vhLoadCase {
 	for i := 0; i < len(d.frags); i++ {
 		for j := i + 1; j < len(d.frags); j++ {
 			a, b := d.frags[i], d.frags[j]
+			if bytes.Equal(a.orig, b.orig) {
+				continue
+			}
 			cases = append(cases, vhLoadCase{desc: fmt.Sprintf("%sfiles %s and %s exchanged on disk", tag, a.path, b.path), changes: func() map[string][]byte {
 				return map[string][]byte{a.path: b.orig, b.path: a.orig}
 			}})
@@ -917,6 +916,11 @@ func vhLoadCases(d *vhDump, bound int) []vhLoadCase {
 			}
 			oi, of := other.graphIndex, other.fileIndex
 			with := fmt.Sprintf(" with graphs[%d].files[%d](%s)", oi, of, other.path)
+			edit := edit
+			if oi != gi {
+				inner := edit
+				edit = func(desc string, lenient bool, f func(m *Manifest)) { inner("cross-graph "+desc, lenient, f) }
+			}
 			if f.path < other.path {
 				edit("path swapped "+at+with, false, func(m *Manifest) {
 					m.Graphs[gi].Files[fi].Path, m.Graphs[oi].Files[of].Path = m.Graphs[oi].Files[of].Path, m.Graphs[gi].Files[fi].Path
@@ -977,7 +981,7 @@ func vhLoadCases(d *vhDump, bound int) []vhLoadCase {
 	}
 	if len(d.manifest.Graphs) > 1 {
 		edit("graph entries reordered", true, func(m *Manifest) { m.Graphs[0], m.Graphs[1] = m.Graphs[1], m.Graphs[0] })
-		edit("graph file lists exchanged", false, func(m *Manifest) { m.Graphs[0].Files, m.Graphs[1].Files = m.Graphs[1].Files, m.Graphs[0].Files })
+		edit("cross-graph file lists exchanged", false, func(m *Manifest) { m.Graphs[0].Files, m.Graphs[1].Files = m.Graphs[1].Files, m.Graphs[0].Files })
 	}
 	return cases
 }
@@ -1454,6 +1458,7 @@ func vhTarSection(base string, bound int, seed int64, rep *vhReport, sectionKey 
 			default:
 				if left := vhListTree(out); len(left) > 0 {
 					rep.notePartial(key, epName, c.desc+", "+vhLayoutNames[layout], left)
+					rep.fail(key, desc, "stream-partial-output: the call failed (%s) but left extracted files in the output directory: %v", vhShort(err.Error(), 80), left)
 				}
 			}
 		}
@@ -1923,6 +1928,7 @@ func vhArchiveSection(base string, bound int, seed int64, rep *vhReport, section
 			default:
 				if left := vhListTree(out); len(left) > 0 {
 					rep.notePartial(key, "UnpackEncryptedCollectionArchive(stream, in place) codec="+string(d.codec), c.desc, left)
+					rep.fail(key, desc, "stream-partial-output: the call failed (%s) but left extracted files in the output directory: %v", vhShort(err.Error(), 80), left)
 				}
 			}
 			if diff := vhSnapshotDiff(before, vhSnapshot(parent, out)); diff != "" {
@@ -2029,6 +2035,7 @@ func TestVerifBoundedHostileInput(t *testing.T) {
 		"benign_by_manifest_key":             rep.benignByKey,
 		"known_deviations_observed":          vhSortedNotes(rep.known, 40),
 		"known_deviations_observed_count":    len(rep.known),
+		"known_deviation_hits":               vhKnownHits(rep.known),
 		"partial_output_after_failure":       rep.partialGroups(),
 		"partial_output_after_failure_count": len(rep.partial),
 	}
@@ -2046,4 +2053,17 @@ func TestVerifBoundedHostileInput(t *testing.T) {
 	if len(rep.failures) > 0 {
 		t.Fail()
 	}
+}
+
+func vhKnownHits(notes []vhNote) map[string]int {
+	out := map[string]int{}
+	for _, n := range notes {
+		for _, p := range vhKnownDeviations {
+			if strings.Contains(n.text, p) {
+				out[p]++
+				break
+			}
+		}
+	}
+	return out
 }
